@@ -251,11 +251,13 @@ def check_stream(rec, prefix, G, M, ctx='', unclosed_known=None, closure=True):
         if rp == exp and not orphan:
             rec.check(prefix + '.replay', True)
         else:
-            exp_known = exp - {r[1] for r in kn_runs}
+            # the listed finding may or may not manifest on each run it applies to (a later call that
+            # restates the vanishing closes the run): what is missing must be second instants of such runs
+            lost_ok = (not (rp - exp)) and (exp - rp) <= {r[1] for r in kn_runs}
             res &= rec.check(prefix + '.replay', False,
                              lambda: '%s replaying the stream of pair %r gives %r, presence is %r; events %r' % (
                                  ctx, M.ends(k), runs_repr(rp), runs_repr(exp), per.get(k)),
-                             known=TRIG if (kn_runs and rp == exp_known and not orphan) else None)
+                             known=TRIG if (kn_runs and lost_ok and not orphan) else None)
     extra = [k for k in per if k not in M.orient]
     res &= rec.check(prefix + '.plus', not extra, lambda: '%s stream has events for pairs never added: %r' % (ctx, extra))
     return res
